@@ -45,7 +45,28 @@ Apply(b, f) == CASE f = <<>> -> b
 Bare == { Cell(nx, ny, m, <<>>, <<>>, <<>>) : nx \in {1, 2}, ny \in {1, 2}, m \in 1..3 }
 Cases == UNION { UNION { { [stack |-> s, cell |-> Apply(b, f)] : f \in IF \A l \in 1..b.metals : Fits(s, b, s.metals[l]) THEN Features(s, b) ELSE {<<>>} }
                          : b \in { x \in Bare : x.metals <= Len(s.metals) } } : s \in Stacks }
-Init == c \in Cases
+\* Random cells (NRand; TLC's RandomElement, reproducible under -seed): on a random multi-layer stack a cell of 2 x 2
+\* pitches with a random mixture of up to three cuts, up to three assignments (nets n1..n3) and up to two instances,
+\* all over random tracks of adjacent layers: the interactions (a cut next to an instance, two nets on one track,
+\* a net under a blockage ...) decide between an error and a particular set of rectangles
+CONSTANT NRand
+StackSeq == LET RECURSIVE F(_) F(T) == IF T = {} THEN <<>> ELSE LET x == CHOOSE y \in T : TRUE IN <<x>> \o F(T \ {x}) IN F({ s \in Stacks : Len(s.metals) >= 2 })
+RandCross(s, b, k) == LET prs == AdjIn(s, b, TRUE)
+                          p == RandomElement(prs)
+                      IN <<p[1], RandomElement(0..(NT(s, b, p[1]) - 1)), p[2], RandomElement(0..(NT(s, b, p[2]) - 1))>>
+RandCase(i) ==
+  LET s == StackSeq[RandomElement(1..Len(StackSeq))]
+      b == Cell(2, 2, Len(s.metals), <<>>, <<>>, <<>>)
+      fits == \A l \in 1..b.metals : Fits(s, b, s.metals[l])
+      nets == << "n1", "n2", "n3" >>
+  IN IF ~fits THEN [stack |-> s, cell |-> b]
+     ELSE [stack |-> s,
+           cell |-> [b EXCEPT
+              !.cuts = [k \in 1..RandomElement(0..3) |-> LET x == RandCross(s, b, k) IN X(x[1], x[2], x[3], x[4])],
+              !.assigns = [k \in 1..RandomElement(0..3) |-> LET x == RandCross(s, b, k + 10) IN A(nets[RandomElement(1..3)], x[1], x[2], x[3], x[4])],
+              !.insts = [k \in 1..RandomElement(0..2) |-> In(1, 1, RandomElement(1..Len(s.metals)), RandomElement(0..2), RandomElement(0..2),
+                                                            RandomElement(BOOLEAN), RandomElement(BOOLEAN))]]]
+Init == c \in Cases \cup { RandCase(i) : i \in 1..NRand }
 Next == UNCHANGED c
 Spec == Init /\ [][Next]_c
 
